@@ -1,12 +1,12 @@
 SPECIFICATION Spec
 CONSTANTS
-  NF = 1
+  NF = 2
   MaxLen = 60
-  Kinds = {"mod", "modeonly", "add"}
   MaxHunks = 2
-  MaxBody = 5
-  Preamble = TRUE
-  MaxConf = 1
+  MaxOld = 3
+  MaxNew = 2
+  Titled = FALSE
+  Ambig = {"minus3"}
   Buf = 1
   Fixes = {"D1", "D14", "D2", "D18"}
 VIEW View
